@@ -366,6 +366,21 @@ def main():
     with mp.Pool(common.NCPU) as pl:
       for part in pl.map(larger_work, [seeds[k::common.NCPU] for k in range(common.NCPU)]):
         recs += part
+    # hand-made configurations: a mutable leaf container (a set) shared inside one fixture
+    def it(k, v):
+      return {'key': k, 'val': v, 'tg': 0}
+    shared_set = [[{'k': 'config', 'fn': 1, 'items': [it(1, -2), it(2, -3), it(3, -4)]},
+                   {'k': 'mleaf', 'fn': 0, 'items': []},
+                   {'k': 'list', 'fn': 0, 'items': [it(0, -2), it(1, 1)]},
+                   {'k': 'config', 'fn': 4, 'items': [it(1, -2)]}],
+                  [{'k': 'partial', 'fn': 2, 'items': [it(1, -2), it(2, -3)]},
+                   {'k': 'dict', 'fn': 0, 'items': [it(1, -4), it(2, -4)]},
+                   {'k': 'config', 'fn': 4, 'items': [it(2, -4)]},
+                   {'k': 'mleaf', 'fn': 0, 'items': []}]]
+    for hp in shared_set:
+      for cx in (None, 0, 1, 3):
+        for g in ('new', 'ac'):
+          recs.append(one(hp, g, {'sub_fixtures': None, 'max_expression_complexity': cx, 'include_history': False}))
     good = next(r for r in recs if r['out'] == 'emitted' and len(r['heap']) >= 2)
     vneg = common.Verdict(PROP, 'translation_validation')
     vneg.kf.entries = []
